@@ -219,6 +219,26 @@ def run_case(case, observe_each=False, full=False):
         hook = None
     q, n = run_until_quiet(sched, step_budget(prog),
                            observe=obs if observe_each else None, hook=hook)
+    if q and case.get('auto_resume'):
+        # the definition pauses itself (`pause` command): an operator resumes
+        # whenever nothing else is pending (bounded)
+        for _ in range(8):
+            cur = sim.snapshot()
+            paused = sorted((w for w in cur['wf'].values()
+                             if w['state'] == 'PAUSED'),
+                            key=lambda w: (w['task_execution_id'] is not None,
+                                           w['created_at'], w['id']))
+            if not paused:
+                break
+            sim.call(sim.rpc_clients.get_engine_client().resume_workflow,
+                     paused[0]['id'])
+            res.resumes = getattr(res, 'resumes', 0) + 1
+            q, n2 = run_until_quiet(sched, step_budget(prog),
+                                    observe=obs if observe_each else None,
+                                    hook=hook)
+            n += n2
+            if not q:
+                break
     res.quiescent = q
     res.steps = n
     snap = sim.snapshot(full=full)
